@@ -24,6 +24,7 @@ from electrumx.lib.tx import Deserializer
 from electrumx.lib.util import (
     class_logger, pack_le_uint32, pack_le_uint64, unpack_le_uint64, open_file, unpack_le_uint32,
 )
+from electrumx.server.daemon import DaemonError
 from electrumx.server.db import FlushData
 
 
@@ -325,7 +326,13 @@ class BlockProcessor:
         first = self.state.height + 1
         count = min(daemon_height - first + 1, self.coin.prefetch_limit(first))
         if count:
-            hex_hashes = await self.daemon.block_hex_hashes(first, count)
+            try:
+                hex_hashes = await self.daemon.block_hex_hashes(first, count)
+            except DaemonError as e:
+                # The daemon's chain got shorter since it told us its height (it switched to
+                # a branch of lower height); look again on the next poll
+                logger.warning(f'daemon could not give block hashes from height {first:,d}: {e}')
+                hex_hashes = []
             kind = 'new' if self.caught_up else 'sync'
             await OnDiskBlock.prefetch_many(self.daemon, enumerate(hex_hashes, start=first), kind)
         else:
@@ -349,7 +356,14 @@ class BlockProcessor:
             logger.info(f'faking a reorg of {count:,d} blocks')
         await self.run_with_lock(self.flush(True))
 
-        start, hex_hashes = await self._reorg_hashes(count)
+        try:
+            start, hex_hashes = await self._reorg_hashes(count)
+        except DaemonError as e:
+            # The daemon's chain is shorter than ours by now (it switched branch again), so
+            # the fork point cannot be found yet.  Nothing has been undone; the reorg is
+            # detected again once the daemon's chain has outgrown ours.
+            logger.warning(f'cannot determine the reorg range yet: {e}')
+            return
         pairs = reversed(list(enumerate(hex_hashes, start=start)))
         await OnDiskBlock.prefetch_many(self.daemon, pairs, 'reorg')
 
